@@ -122,6 +122,8 @@ impl Stats {
     }
 }
 
+pub const ANNOUNCE_BATCH: u64 = 32;
+
 pub struct WorkerCtx {
     pub prop: String,
     pub tier: Tier,
@@ -195,13 +197,23 @@ impl WorkerCtx {
     }
 
     /// Announce the case about to run (crash attribution). Only active for crash-type properties.
+    /// Crash attribution: in a normal run only every `ANNOUNCE_BATCH`-th case is announced (the
+    /// pipe write dominates cheap cases otherwise); in reproduction mode (`only` = first case of a
+    /// batch) every case of that batch is announced with its artefact.
     pub fn start_case(&self, shard: u64, idx: u64, artefact: impl FnOnce() -> Value) {
-        if let Some(only) = self.only {
-            if only == (shard, idx) {
+        if self.only.is_some() {
+            if self.in_only_range(shard, idx) {
                 emit(json!({"k":"start","shard":shard,"idx":idx,"artefact":artefact()}));
             }
-        } else if self.announce {
+        } else if self.announce && idx % ANNOUNCE_BATCH == 0 {
             emit(json!({"k":"start","shard":shard,"idx":idx}));
+        }
+    }
+
+    pub fn in_only_range(&self, shard: u64, idx: u64) -> bool {
+        match self.only {
+            Some((s, i0)) => s == shard && idx >= i0 && idx < i0 + ANNOUNCE_BATCH,
+            None => true,
         }
     }
 
@@ -256,10 +268,8 @@ impl WorkerCtx {
                     if st.ctx.skip.contains(&(shard, idx)) {
                         return Ok(());
                     }
-                    if let Some(only) = st.ctx.only {
-                        if only != (shard, idx) {
-                            return Ok(());
-                        }
+                    if !st.ctx.in_only_range(shard, idx) {
+                        return Ok(());
                     }
                 }
                 let mut choices = Choices::new(raw.clone());
@@ -728,6 +738,7 @@ pub fn check(prop: &dyn Prop, tier: Tier, seed: u64) -> i32 {
                             // Reproduce twice in fresh processes.
                             let mut repro = 0;
                             let mut artefact = None;
+                            let mut exact = i;
                             for _ in 0..2 {
                                 let mut a2 = Agg::default();
                                 let mut art2 = None;
@@ -736,18 +747,20 @@ pub fn check(prop: &dyn Prop, tier: Tier, seed: u64) -> i32 {
                                     tier,
                                     seed,
                                     &[s],
-                                    &[],
+                                    &skip,
                                     Some((s, i)),
                                     &mut a2,
                                     &mut art2,
                                 );
-                                if art2.is_some() {
-                                    artefact = art2;
-                                }
-                                if r2.crashed.is_some() {
+                                if let Some((Some((_, ie)), _)) = &r2.crashed {
                                     repro += 1;
+                                    exact = *ie;
+                                    if art2.is_some() {
+                                        artefact = art2;
+                                    }
                                 }
                             }
+                            let i = exact;
                             if repro == 2 && prop.crash_type() {
                                 let art = artefact.unwrap_or(json!({"shard":s,"idx":i}));
                                 let sig = format!("crash:{}", why_class(&why));
@@ -764,7 +777,14 @@ pub fn check(prop: &dyn Prop, tier: Tier, seed: u64) -> i32 {
                                     if prop.crash_type() { "" } else { " (not a crash-type property)" }
                                 ));
                             }
-                            skip.push((s, i));
+                            if repro == 0 {
+                                // Not reproducible: step over the whole announced batch.
+                                for k in 0..ANNOUNCE_BATCH {
+                                    skip.push((s, i + k));
+                                }
+                            } else {
+                                skip.push((s, i));
+                            }
                             if crashes > 20 {
                                 inconc.push("too many worker crashes".into());
                                 break;
